@@ -188,6 +188,30 @@ def check(ctx):
                     continue
                 ok = lin[0] == {nsym[1]: 1} and lin[1] == -1
                 other = [kk for kk, ns in extents.items() if ns[0] == 'v' and lin[0] == {ns[1]: 1}]
+                if not ok:
+                    # on values: extent and number of edges written over the same leaves (aliases, loop variables substituted)
+                    from .common import parse_sx
+                    def _lin_sx(txt):
+                        try:
+                            return linear(parse_sx(txt, full=True)) if txt else None
+                        except SyntaxError:
+                            return None
+                    le = _lin_sx(it.sx(se))
+                    ln_ = {kk: _lin_sx(nv_.sx) for kk, nv_ in n_values.items() if nv_ is not None}
+                    mine = ln_.get(k)
+                    import os
+                    if os.environ.get('GSA_DBG'): print('DBG', k, it.sx(se), '|', {kk: nv_.sx for kk, nv_ in n_values.items() if nv_ is not None}, le, mine)
+                    if le is not None and mine is not None and le[0] == mine[0]:
+                        if le[1] == mine[1] - 1:
+                            ctx.ob('R2', fi, se, True, f'extent of axis {k} = number of edges = n - 1')
+                            continue
+                    elif le is not None and mine is not None:
+                        oth = [kk for kk, l_ in ln_.items() if kk != k and l_ is not None and l_[0] == le[0]]
+                        if oth:
+                            ctx.ob('R1', fi, se, False, f'array extent of axis {k} is taken from axis {oth[0]}')
+                        else:
+                            ctx.ob('R2', fi, se, None, f'extent of axis {k} not comparable with its number of edges')
+                        continue
                 if ok:
                     ctx.ob('R2', fi, se, True, f'extent of axis {k} = number of edges = n - 1')
                 elif other and other[0] != k:
